@@ -123,7 +123,26 @@ def dispatchWords : List String → String
     | none => "bad-hex"
   | ["name2raw", h, z] =>
     match parseHex h with
-    | some n => fmtRes toHex (rawNameFromStr n (if z == "." then none else parseHex z))
+    | some n =>
+      let first := rawNameFromStr n (if z == "." then none else parseHex z)
+      let rt := match first with
+        | .ok raw =>
+          (match parseHex "12348180000100010000000001710000010001036f6c64076578616d706c650000010001000000050004c0000201" with
+          | some pk =>
+            (match parsePP pk with
+            | .ok pp =>
+              (match nextSkippingOpt pp (Cursor.new .answer) with
+              | .ok (some c) =>
+                (match setRawName pp c raw with
+                | .ok o => (match o.result with
+                  | none => " rt=" ++ fld toHex (o.cur.name o.pp.packet)
+                  | some e => " rt=err:" ++ e.name)
+                | _ => " rt=panic")
+              | _ => " rt=panic")
+            | _ => " rt=panic")
+          | none => "")
+        | _ => ""
+      fmtRes toHex first ++ rt
     | none => "bad-hex"
   | ["iter", h] =>
     match parseHex h with
